@@ -8,6 +8,7 @@ compared build-against-build by the cross-build stream of `./check C05`.
 -/
 import ClvmProofs.Lemmas.Interp.Fastpath
 import ClvmProofs.Lemmas.Interp.MachineAgree
+import ClvmProofs.Lemmas.Interp.LiftChia
 
 namespace Clvm.Props.C05
 open Clvm Clvm.Interp Clvm.Alloc
@@ -93,6 +94,16 @@ theorem run_fastpath_irrelevant (extra : String → Option OpFn) (F fuel : Nat) 
     runProgram { fastpath := false } (chiaDialect { fastpath := false } extra F) fuel c0 p env mc :=
   runProgram_agree (dialect_agree extra F) (fun d s p env hp => evalPair_fastpath d s p env hp) hd
     fuel c0 p env mc hp he
+
+/-- the same with the operator hypothesis discharged for the core table and unknown operators:
+only the cryptographic operators' shapes (`OpClean`, `OpWf`) remain assumptions -/
+theorem run_fastpath_irrelevant' (extra : String → Option OpFn)
+    (hec : ∀ name f, extra name = some f → OpClean f) (hew : ∀ name f, extra name = some f → OpWf f)
+    (F fuel : Nat) (c0 : Ctr) (p env : Val) (mc : Nat) (hp : p.wf = true) (he : env.wf = true) :
+    runProgram { fastpath := true } (chiaDialect { fastpath := true } extra F) fuel c0 p env mc =
+    runProgram { fastpath := false } (chiaDialect { fastpath := false } extra F) fuel c0 p env mc :=
+  run_fastpath_irrelevant extra F fuel c0 p env mc
+    (chiaDialect_opClean _ extra (coreOps_clean _) (coreOps_wf _) hec hew opUnknown_clean opUnknown_wf F).wf hp he
 
 example : (Val.ofTree (.pair (.atom [16]) (.pair (.atom [2]) (.atom [])))).wf = true := by decide
 
